@@ -20,7 +20,7 @@ def unsigned_accumulation_rule(rep, u, hdr="include/utils/str2num.h"):
         rep.functions.add(fn.name)
         bad = None
         for pos, root, x, ps in fn.nodes():
-            if x.get("k") == "bin" and x["op"] in ("*=", "+=", "-="):
+            if x.get("k") == "bin" and x["op"] in ("*=", "+=", "-=", "<<=", "<<") and not (x["op"] == "<<" and const_val(x["x"]) is not None):
                 l = core.strip_casts(x["x"])
                 t = u.type(l["t"]) if "t" in l else None
                 if t is not None and t["k"] == "int" and t.get("sg") and (t.get("size") or 4) >= 4:
